@@ -375,6 +375,34 @@ class Program:
 
         visit(_all_stmts(m.tree.body), m.name, None, None)
 
+    def load_extra(self, name: str, path) -> Module:
+        """Parse an additional module (the reference kernels) with the same front end."""
+        path = Path(path)
+        source = path.read_text()
+        m = Module(name=name, path=path, source=source, tree=ast.parse(source),
+                   sha256=hashlib.sha256(source.encode()).hexdigest())
+        self.modules[name] = m
+        self.extra = getattr(self, "extra", set()) | {name}
+        self._index_module(m)
+        return m
+
+    def expand(self, t, depth=0):
+        """Inline calls to module-level lcm / reference functions (loop-free ones)."""
+        if not isinstance(t, tuple):
+            return t
+        t2 = tuple(self.expand(x, depth) if isinstance(x, tuple) else x for x in t)
+        if is_term(t2) and t2[0] == "call" and depth < 8:
+            tgt = t2[1]
+            if tgt[0] == "func":
+                info = self.funcs.get(tgt[1])
+                if info is not None and info.parent is None and info.cls is None and not any(
+                    isinstance(n, (ast.For, ast.While)) for n in ast.walk(info.node)
+                ) and not info.node.decorator_list:
+                    r = self.inline(t2)
+                    if r is not None and r[0] not in ("unknown",):
+                        return self.expand(r, depth + 1)
+        return t2
+
     # ---------------------------------------------------------------- lookup helpers
     def func(self, q: str) -> FuncInfo:
         if q not in self.funcs:
